@@ -166,10 +166,9 @@ class SqrtLasso(LinearModel, RegressorMixin):
         coefs : array, shape (n_features, n_alphas)
             Coefficients along the path.
         """
-        if not hasattr(self, "solver_"):
-            self.solver_ = ProxNewton(
-                tol=self.tol, max_iter=self.max_iter, verbose=self.verbose,
-                fit_intercept=False)
+        self.solver_ = ProxNewton(
+            tol=self.tol, max_iter=self.max_iter, verbose=self.verbose,
+            fit_intercept=False)
         # build path
         if alphas is None:
             alpha_max = norm(X.T @ y, ord=np.inf) / (np.sqrt(len(y)) * norm(y))
